@@ -50,6 +50,19 @@ func VerifC16ViewGeometry() {
 	s.h.Add(&Page{feed: f, loadingUp: verifrt.Bool("loadingUp"), loadingDown: verifrt.Bool("loadingDown")})
 	if f.Contains(0) {
 		c16CheckFrame(s, width, height)
+		// the highlighted item (the lines carrying the cursor bar) is vertically centred
+		item := f.Current().(*vItem)
+		if height > item.lines {
+			sc := verifrt.Parse(s.view())
+			first := -1
+			for i, l := range sc.Lines {
+				if len(l) > 0 && l[0].R == '┃' {
+					first = i
+					break
+				}
+			}
+			verifrt.Assert(first == (height-item.lines)/2, "highlighted-item-vertically-centred")
+		}
 	}
 	verifrt.Reach("end")
 }
